@@ -172,6 +172,10 @@ func (r *roundRobinSelector) AddNode(node *databasev1.Node) {
 	}
 	r.mu.Lock()
 	defer r.mu.Unlock()
+	if slices.Contains(r.nodes, node.Metadata.Name) {
+		// AddNode is also called for node updates; a repeated name must not take a second slot.
+		return
+	}
 	r.nodes = append(r.nodes, node.Metadata.Name)
 	sort.StringSlice(r.nodes).Sort()
 }
